@@ -773,8 +773,11 @@ func (f *STFS) Rename(oldname, newname string) error {
 	oldname = cleanName(oldname)
 	newname = cleanName(newname)
 
+	// Equivalent spellings ("/d/f", "d/f", "./d/f") name the same entry, so compare the rooted ones
+	rootedOldname, rootedNewname := filepath.Join("/", oldname), filepath.Join("/", newname)
+
 	// A directory can't be moved into its own subtree
-	if strings.HasPrefix(newname, strings.TrimSuffix(oldname, "/")+"/") {
+	if strings.HasPrefix(rootedNewname, strings.TrimSuffix(rootedOldname, "/")+"/") {
 		return os.ErrInvalid
 	}
 
@@ -816,7 +819,7 @@ func (f *STFS) Rename(oldname, newname string) error {
 	}
 
 	// Renaming an existing entry onto itself is a no-op
-	if oldname == newname {
+	if rootedOldname == rootedNewname {
 		return nil
 	}
 
